@@ -95,11 +95,18 @@ def emit(vf, exp, path, fr, ind):
     A(('after', 'asm.put_U64(cell_mask, cell_cont_len)?;', 0, ch['postput']))
     A(('before', 'Ok(())', 1, ch['final']))
     vgen.emit_fn(vf, exp, path + ['fn:encode'], sp, label='%s::encode' % '::'.join(path[1:]), indent=ind, keep_pub=True)
-    # decode side stays external in this unit
+    # decode: the parents call the external `decode` (bit-log claim void for MSM); the real text is verified as `decode_checked`
     vf.emit((ind + """#[verifier::external_body]
 pub fn decode(par: &mut Parser) -> (r: Result<DataType, RtcmError>)
     ensures final(par).nz(),
 { unimplemented!() }""").replace('\n', '\n' + ind))
+    sp = FnSpec(); sp.ret = 'r'; sp.body_props = {'C02', 'C10'}
+    sp.rename = 'decode_checked'
+    sp.replace = [(r'\b(asm|par)\.(put|parse)::<(\w+)>\(', r'\1.\2_\3(', 'R6 generic L0 call monomorphised')]
+    sp.ensures = []
+    sp.inserts.append(('after', 'let sig_len = mask_len_u32(sig_mask);', 0,
+                       'proof { let a = sat_len as int; let b = sig_len as int; assert(a * b <= 64 * 32) by(nonlinear_arith) requires 0 <= a <= 64, 0 <= b <= 32; }'))
+    vgen.emit_fn(vf, exp, path + ['fn:decode'], sp, label='%s::decode' % '::'.join(path[1:]), indent=ind, keep_pub=True)
 
 
 ENC_POST_MSM = 'r is Ok && !final(asm).poison() ==> enc(*value) is Some && final(asm).bits() == old(asm).bits() + enc(*value)->Some_0'
